@@ -57,6 +57,8 @@ pub struct GTarget {
     /// evaluation counter (hang detector: a transition may not evaluate the target unboundedly often)
     pub evals: Arc<AtomicU64>,
     pub eval_budget: u64,
+    /// fault: the evaluation with this number (counted over all clones) panics, once
+    pub crash_at: u64,
 }
 
 pub const EVAL_BUDGET_MSG: &str = "VERIF-EVAL-BUDGET exceeded: unbounded trajectory";
@@ -67,7 +69,7 @@ impl GTarget {
     }
 
     pub fn new(kind: GKind, d: usize) -> Self {
-        GTarget { kind, d, a: vec![], mu: vec![0.0; d], nu: 3.0, ra: 1.0, rb: 10.0, c: 1.0, offset: 0.0, evals: Arc::new(AtomicU64::new(0)), eval_budget: u64::MAX }
+        GTarget { kind, d, a: vec![], mu: vec![0.0; d], nu: 3.0, ra: 1.0, rb: 10.0, c: 1.0, offset: 0.0, evals: Arc::new(AtomicU64::new(0)), eval_budget: u64::MAX, crash_at: u64::MAX }
     }
 
     /// random SPD precision with condition number up to `cond`
@@ -109,6 +111,10 @@ impl GTarget {
 
     fn bump(&self) {
         let n = self.evals.fetch_add(1, Ordering::Relaxed) + 1;
+        if n == self.crash_at {
+            mcmc_sim::sim::count("fault_worker_crash_injected", 1);
+            panic!("VERIF-INJECTED target failure at evaluation {n}");
+        }
         if n > self.eval_budget {
             panic!("{}", EVAL_BUDGET_MSG);
         }
